@@ -683,8 +683,11 @@ Definition rd_env (l : list Z) : envelope * list Z :=
   let (parents, l) := rd_counted rd_pair l in
   (mkEnv input offset pushnum stutter dup incomplete uneven ptr_field ptr hidden parents, l).
 
+(* output: value, script field = 2*kind + f.  f = 1 iff the first byte of the output script is OP_RETURN (0x6a),
+   computed by the harness from the bytes of the script it builds; kind (which script the harness builds) is
+   not read by the model. *)
 Definition rd_out (l : list Z) : txout * list Z :=
-  let (v, l) := rd l in let (o, l) := rdb l in (mkOut v o, l).
+  let (v, l) := rd l in let (o, l) := rd l in (mkOut v (N.odd o), l).
 
 Definition rd_tx (l : list Z) : tx * list Z :=
   let (id, l) := rd l in
